@@ -3,8 +3,11 @@
 gen:  the suppression window (`now.Sub(t) > <expr>`) and the purge ticker period (`clock.Ticker(<expr>)`) are extracted
       from node/cmd/guardiand/reobserve.go into lean/Whv/Gen/C17.lean (nanoseconds) on every run.
 prove: Whv.Props.C17 (all histories / operation sequences, every window) + drv_reobserve.
-tie:  (1) the REAL handleReobservationRequests loop under a harness-owned clock and ticker channel (package guardiand,
-      p2p stub overlay), (2) the REAL common.PostObservationRequest on queues of every fill level (package common).
+tie:  (1) the REAL handleReobservationRequests loop under a harness-owned clock (Now, the ticker channel, and live
+      After/Timer/Sleep/AfterFunc that fire when the harness advances time) and the REAL admin entry point
+      nodePrivilegedService.SendObservationRequest on outbound queues of every fill level under a watchdog (package
+      guardiand, p2p stub overlay), (2) the REAL common.PostObservationRequest on queues of every fill level (package
+      common), (3) the processor's cleanup caller (proccommon).
 """
 import os
 import re
@@ -97,6 +100,10 @@ def run(ctx):
                     if p[0] == "reset":
                         k = p[1].rstrip("0123456789")
                         kinds[k] = kinds.get(k, 0) + 1
+                    if p[0] == "adminpost":
+                        kinds["adminpost"] = kinds.get("adminpost", 0) + 1
+                        if len(samples) < 2 and "fill=50" in ln:
+                            samples.append(ln.strip())
                     if p[0] in ("req", "tick", "drain") and len(samples) < 6 and total % 97 == 3:
                         samples.append(ln.strip()[:300])
             ctx.cov["generator_distribution"] = kinds
@@ -128,21 +135,35 @@ def run(ctx):
     ctx.cov["generator_distribution"] = {"reobserve": keep["generator_distribution"], "processor": ctx.cov.get("generator_distribution")}
     ctx.cov["driver_stats"] = keep["driver_stats"]
     ctx.cov["rule"] = ("sessions on the real handleReobservationRequests loop (harness-owned clock; the ticker channel is driven by the "
-                       "harness with the period the loop asked for): window-boundary sessions (forward at ticker phases around "
+                       "harness with the period the loop asked for; After/Timer/Sleep/AfterFunc on that clock are live and fire when the "
+                       "harness advances time): window-boundary sessions (forward at ticker phases around "
                        "2P-W and 3P-W, ticks at k*P and at forward+W+{-2..2} ns, the same request repeated after every tick), every "
-                       "fill level of watcher queues of capacity 0..4 and 50 (drop, free a slot, repeat), unknown-chain sessions "
-                       "(watcher added later), random interleavings over chains / transactions / chain ids above 16 bits / ticks / "
-                       "drains / watcher-map changes; plus PostObservationRequest on every fill level of capacities 0..5, 49..51 and "
+                       "fill level of watcher queues of capacity 0..4 and 50 (drop, free a slot, repeat), `late` sessions (requests dropped "
+                       "on a full queue of capacity 1..3 and 50 and for an unwatched chain; the queue is drained at once / after 1 s / after "
+                       "6 s; the clock is stepped to +1 ns, 1 s, 5 s, 6 s, 10 s, 1 min (+-1 ns), the ticker period, the window +-1 ns, window + "
+                       "period and beyond with the due purge ticks; the request is repeated never / once at 1 s / after every step / once "
+                       "at 6 s; every queue recorded after every step and everything that arrives identified), unknown-chain sessions "
+                       "(watcher added later), random interleavings over chains / transactions / chain ids above 16 bits / ticks / clock "
+                       "advances / drains / watcher-map changes; the admin entry point SendObservationRequest (in-process service value) "
+                       "on outbound queues of capacity 50, 0..3, 7 at EVERY fill level 0..cap, callers with a context without deadline and "
+                       "with a one-hour deadline, plus queues filled call by call through the entry point (the calls on full queues run "
+                       "concurrently under one 10 s watchdog: a call that has not returned is reported, never waited for; on a queue with "
+                       "room the caller's request must be the last entry, unchanged, the earlier entries untouched); plus "
+                       "PostObservationRequest on every fill level of capacities 0..5, 49..51 and "
                        "random ones. evaluations = case lines; distinct_nontrivial = sessions (and post calls) on which model and "
-                       "implementation agreed on every queue length and every drained item and the Spec held on the implementation's own behaviour")
+                       "implementation agreed on every queue length and every drained item and the Spec held on the implementation's own "
+                       "behaviour - including: nothing arrived on a watcher queue that a request of the session had not forwarded, and "
+                       "at-most-once per window counted over every delivery of the session")
     ctx.cov["trusted_base"] += [
-        "harness/guardiand/c17_reobserve_verif_test.go: c17Clock (Now() set by the harness; Ticker(d) returns a ticker whose channel the harness drives, d is recorded and compared with the extracted period), barrier-request synchronisation, Whv/Driver/Reobserve.lean (comparison + Spec ghost state)",
+        "harness/guardiand/c17_reobserve_verif_test.go: c17Clock (Now() set by the harness; Ticker(d) returns a ticker whose channel the harness drives, d is recorded and compared with the extracted period; every other timer of the clock is served by a benbjohnson/clock mock created at the harness' time when first armed and moved by Mock.Set on every advance), barrier-request synchronisation, Whv/Driver/Reobserve.lean (comparison + Spec ghost state, stray-arrival accounting)",
+        "the admin entry point is called on a nodePrivilegedService value holding only the outbound queue and a logger (the fields SendObservationRequest uses); the gRPC transport in front of it is not exercised",
         "checks/c17.py regexes locating the two durations in reobserve.go (the ticker period is cross-checked against the value the compiled loop passes to clock.Ticker; the window against boundary sessions at +-1 ns)",
         "generated p2p stub (only the body of p2p.Run is removed) so that cmd/guardiand compiles",
         "Go runtime semantics of select/default on buffered channels (exercised at every fill level, not modelled)",
     ]
     ctx.assumptions += [
-        "non-blocking is observed, not proved, on the Go side: every send to the dispatcher and every PostObservationRequest call returned within the harness timeout (3 s); the Lean theorems show the model performs a send only when the queue has room",
+        "non-blocking is observed, not proved, on the Go side: every send to the dispatcher, every PostObservationRequest call and every SendObservationRequest call returned within the harness timeout (10 s); the Lean theorems show the model performs a send only when the queue has room",
+        "deferred deliveries are looked for on the dispatcher's own clock (steps up to two windows + one ticker period after a drop) - code that waits on the wall clock instead (time.After) is outside what a mock clock can see within the tier's time",
         "the ticker is modelled as an arbitrary monotone sequence of tick times (late or dropped ticks included); c17_again_after_window needs one handled tick later than forward + window",
         "ObservationRequest.ChainId is a uint32 narrowed to the 16-bit vaa.ChainID: 'the chain it names' is chain_id mod 2^16 (model and Spec follow the code here)",
         "a nil *ObservationRequest on the channel (never produced by p2p or the admin RPC) would panic the loop; not exercised because a panic in the dispatcher goroutine cannot be recovered by the harness",
